@@ -25,7 +25,8 @@ RULE = ('one run = 1..2 announcer threads (2..8 image announcements incl. duplic
         'an image while >= 2 distinct images were announced before it; distinct = history digest')
 SHAPE_MEASURE = 'distinct (number of images before sample, header/data relation, boundary classes of frames) tuples'
 ASSUMPTIONS = ['an image announced inside the sample\'s own window, or a shared-cache map between its record and the END of its launch, may '
-               'or may not count as "earlier" (both attributions accepted)', 'one stack header per sample']
+               'or may not count as "earlier" (both attributions accepted)', 'one stack header per sample',
+               'images that one launch list announces at the same address are all "first": the statement does not order the entries of a list']
 USTACK, THINFO = 8, 1
 
 
@@ -390,6 +391,13 @@ def execute(scn):
                 uuid, off = model.attribute(dimages, fr.address)
                 ok = {(uuid, off)}
                 dbest = fr.address - off if uuid is not None else -1
+                if uuid is not None:
+                    # several images of one launch list share this address: they are announced at the same instant (the launch's
+                    # END) and the statement does not order a list's entries among themselves - any of them may be 'the first'
+                    first_time = min(a[1] for a in definite if a[2] == dbest)
+                    for a in definite:
+                        if a[2] == dbest and a[1] == first_time:
+                            ok.add((a[3], off))
                 for a in maybe:
                     if a[2] <= fr.address and a[2] >= dbest:
                         if a[2] == dbest and uuid is not None:
